@@ -52,6 +52,31 @@ CHECKS = {
   text="One queue reconcile of a pod with every combination of phase, terminating state, grace period, do-not-disrupt value (absent/true/duration/garbage), toleration and static ownership under a nil or symbolic node deadline with eviction and delete faults: removals happen only through the eviction subresource (active, non-tolerating, non-static pods without active do-not-disrupt) or through a Delete with grace >= 1 s, only under a deadline and no earlier than deadline minus the pod's own grace period. Re-adding a pod keeps the earlier deadline. A drain pass over up to 3 pods queues past-deadline pods of any tier and graceful candidates of the first non-empty tier only, and reports completion exactly when nothing drainable is left.",
   ref="DESIGN.md §7 C10",
   note="The API server's PDB enforcement, the informer/channel plumbing of the queue and interleavings of several drain passes with several queue reconciles are outside."),
+ "C07": dict(
+  technique="bounded symbolic execution (go/ssa -> SMT, z3) of disruption.NewCandidate, the five ShouldDisrupt predicates, StateNode.Validate*, pod/PDB predicates over a real cluster state, and of the Consolidatable sub-controller with symbolic clock, durations and timestamps",
+  text="One node built through the informer entry points with every node-level blocker (unmanaged, uninitialized, marked, nominated, annotated, already queued), every pod-level blocker shape (do-not-disrupt true / duration relative to a symbolic start time / on a terminal pod, blocking or allowing PDB), terminationGracePeriod, static/dynamic pool, consolidateAfter, policy, Consolidatable/Drifted conditions and buffer pods, for each of the five methods: a node is selected only if no blocker applies, pod-level blockers are overridden only by drift with a terminationGracePeriod, and the consolidation-specific conditions hold. The Consolidatable condition after one reconcile equals 'enabled and initialized and consolidateAfter elapsed since the last pod event' for symbolic instants and any previous condition.",
+  ref="DESIGN.md §7 C07",
+  note="One node, at most one pod and one PDB; quick tier sweeps node-level blockers, pod-level blockers and consolidation settings separately, thorough takes the full product. Staleness of the Consolidatable condition between the two controllers and label-selector matching internals are outside."),
+ "C08": dict(
+  technique="bounded symbolic execution (go/ssa -> SMT, z3) of disruption.Queue.{Reconcile,waitOrTerminate,CompleteCommand,StartCommand(refusal)} with the rollback helpers over real cluster state, against the API-client model with lagging reads and faults; symbolic command age and poll spacing",
+  text="A replace command (one candidate, one replacement) polled up to 2 (3) times: reads of the replacement may lag or fail, deletes may fail, the replacement may become Initialized or vanish between polls, the command's age is symbolic. Every candidate Delete happens only after the API has shown the replacement Initialized; an action that ends failed issued no Delete, unmarks the node and removes taint and DisruptionReason condition when those calls succeed; a second command on a queued node is refused. Known finding C08-F1 (time-out wrap after a successful delete) is reported.",
+  ref="DESIGN.md §7 C08",
+  note="StartCommand's replacement creation (the real provisioner) and controller restarts are not covered. retry.OnError makes as many attempts as its backoff has steps, without sleeping."),
+ "C09": dict(
+  technique="bounded symbolic execution (go/ssa -> SMT, z3) of node/termination.Controller.finalize (with the real Terminator and eviction queue) and nodeclaim/lifecycle.Controller (launch ... finalize) over consecutive reconciles against API-client and provider models with faults and environment events; the assertion sits at the write that drops the finalizer",
+  text="Node: up to 3 (4) reconciles from fresh and mid-termination start states with pods finishing, late pods being bound and volumes detaching in between, symbolic clock start and deadline: the finalizer goes only after the taint is on, no drainable pod is left, volume attachments are gone or the deadline passed, and the provider reports the instance gone; or at once for a not-ready node whose instance is gone. NodeClaim: up to 3 (4) reconciles with write and provider faults, user deletion and node registration events: the finalizer goes only after the Nodes are gone (if registered) and the provider reports the instance not found (if ever launched, by ghost state). Known finding C09-F1 (orphan after a failed status patch) is reported.",
+  ref="DESIGN.md §7 C09",
+  note="Pod-level drain is C10's subject (pods leave through environment events here). Volume-attachment filtering by undrainable pods and apiserver finalizer semantics beyond 'object disappears with its last finalizer' are outside."),
+ "C11": dict(
+  technique="bounded symbolic execution (go/ssa -> SMT, z3) of state.Cluster's informer entry points over event histories with a ghost API store; symbolic pod requests and capacities; final state compared accessor by accessor with a fresh Cluster",
+  text="All histories of up to 3 (4) events over {NodeClaim delivered, Node delivered, pod created/recreated under the same name, pod deleted, node marked/unmarked} on one NodeClaim, one Node and two pod names; failed deliveries are retried; then PodRequests, DaemonSetRequests, Capacity, DisruptionCost, host-port conflicts, NodePool totals and node counts equal those of a fresh Cluster fed the final store. C11-F1 (disruption costs lost on NodeClaim update) was repaired by a fix: commit.",
+  ref="DESIGN.md §7 C11",
+  note="No inductive invariant is claimed beyond the history bound. DaemonSet cache, volume usage with PVCs, pod scheduling-time maps, provider-id changes and stale (out-of-date) deliveries are not covered by this check."),
+ "C14": dict(
+  technique="bounded symbolic execution (go/ssa -> SMT, z3) of nodeclaim/lifecycle.Controller.Reconcile (launch, registration, initialization, liveness) over consecutive reconciles against API-client and provider models with write/provider faults and node events; ghost Create counter",
+  text="Up to 3 (4) reconciles of one NodeClaim, every NodeClaim write and provider Create may fail, the node may appear and become ready in between, the clock advances symbolically: a successful provider Create happens at most once and only when the stored NodeClaim carries the finalizer; Launched/Registered/Initialized are true only in that order and only with instance created / node present, synced and untainted / node Ready; insufficient-capacity and nodeclass-not-ready errors delete the NodeClaim, other errors keep it.",
+  ref="DESIGN.md §7 C14",
+  note="Launch cache modelled as a map without expiry (claim holds within the 1 h TTL, no controller restart). No registration hooks, DRA ignored. Quick tier: write faults are generic errors or NotFound; conflicts in the thorough tier."),
 }
 
 REASON_WIP = "no check registered yet in this revision (the technique applies, see DESIGN.md §7; the harness is still to be built)"
